@@ -168,9 +168,32 @@ class HeapOps:
                 return VSeq(t, kind[4:])
         return VBound(base, attr)
 
+    def snapshot_locations(self, locs, env):
+        out = []
+        for r, f in self.eval_locations(locs, env, None):
+            if f == "$list":
+                out.append((r, "$len", self.h["$len"][r]))
+                out.append((r, "$elem", self.h["$elem"][r]))
+            elif f in self.S.FIELDS:
+                out.append((r, f, self.h[f][r]))
+        return out
+
+    def restore_locations(self, keep):
+        for r, f, v in keep:
+            self.h[f] = z3.Store(self.h[f], r, v)
+
+    def fresh_object(self, cls):
+        """A newly allocated object with unconstrained content (result of an external call)."""
+        r = self.alloc(cls)
+        if cls in ("list", "Scope"):
+            n = self.path.fresh("fresh.len", z3.IntSort())
+            self.path.assume(n >= 0, check=False)
+            self.h["$len"] = z3.Store(self.h["$len"], r.t, n)
+        return r
+
     def check_write(self, ref_t, field, node):
         """Frame obligation: the written location is in `modifies` or the object is fresh."""
-        if self.ev.pure:
+        if self.ev.pure or "*" in (self.ctx.contract.modifies or []):
             return
         allowed = [ref_t >= self.path.alloc0]
         for (r, f) in self.frame_locations():
@@ -417,6 +440,16 @@ class HeapOps:
             other = args[0]
             if isinstance(other, VPy) and other.obj == ("emptylist",):
                 return VNone()
+            if isinstance(other, VPy) and other.obj == ("generator",):
+                # extend(generator): unknown suffix appended, prefix kept
+                n = self.llen(l)
+                old = self.h["$elem"][l.t]
+                new = self.fresh_elems("extg")
+                m = self.path.fresh("extg.n", z3.IntSort())
+                j = z3.Const("j!extg", z3.IntSort())
+                self.path.assume(z3.And(m >= 0, z3.ForAll([j], z3.Implies(z3.And(j >= 0, j < n), new[j] == old[j]), patterns=[new[j]])), check=False)
+                self.write_list(l, new, n + m, node, "extend")
+                return VNone()
             if isinstance(other, VRef):
                 n, m = self.llen(l), self.llen(other)
                 old, oth = self.h["$elem"][l.t], self.h["$elem"][other.t]
@@ -505,6 +538,21 @@ class HeapOps:
                         return r
         return None
 
+    def new_dict(self, d, node=None):
+        obj = self.alloc("ScopeLayer")
+        for k, v in d.items():
+            self.h[k] = z3.Store(self.h[k], obj.t, self.to_field(k, v, node))
+        return obj
+
+    def fresh_list_upto(self, bound):
+        r = self.alloc("list")
+        n = self.path.fresh("comp.len", z3.IntSort())
+        self.path.assume(z3.And(n >= 0, n <= bound), check=False)
+        arr = self.fresh_elems("comp")
+        self.h["$elem"] = z3.Store(self.h["$elem"], r.t, arr)
+        self.h["$len"] = z3.Store(self.h["$len"], r.t, n)
+        return r
+
     # ------------------------------------------------------------------ dict-like objects with constant keys
     def dict_get(self, base, key, node, default=None, soft=False):
         if not (isinstance(key, VStr) and z3.is_string_value(key.t)):
@@ -512,7 +560,7 @@ class HeapOps:
                 return self.dunder(base, "__getitem__", [key], {}, node, None)
             self._no(node, "dict access with non-constant key")
         k = key.t.as_string()
-        if base.cls not in ("dict", "ScopeLayer") and not soft:
+        if base.cls not in ("dict", "ScopeLayer", None) and not soft:
             return self.dunder(base, "__getitem__", [key], {}, node, None)
         if k not in self.S.FIELDS:
             self._no(node, f"dict key {k} not in schema")
@@ -621,8 +669,19 @@ class HeapOps:
         if not getattr(c, "modifies", None) and not getattr(c, "allocates", False):
             return
         self.init_path()
-        locs = self.eval_locations(c.modifies, cenv, None)
         tagname = f"hv:{c.name}"
+        if "*" in (c.modifies or []):
+            if not self.ev.pure:
+                self.check_write(I(0), "*", None) if "*" not in (self.ctx.contract.modifies or []) else None
+            for f in list(self.h):
+                if f == "$alloc":
+                    continue
+                self.h[f] = self.path.fresh(tagname + "." + f, self.h[f].sort())
+            na = self.path.fresh(tagname + ".alloc", z3.IntSort())
+            self.path.assume(na >= self.h["$alloc"], check=False)
+            self.h["$alloc"] = na
+            return
+        locs = self.eval_locations(c.modifies, cenv, None)
         for r, f in locs:
             if not self.ev.pure:
                 # the callee's frame must lie within ours
